@@ -91,6 +91,18 @@ pub fn check_header(spec: &MsgHeaderSpec) -> Check {
         ensure!(hc == h, "layout:depends-on-read-chunking", "header decoded from a reader delivering {} byte(s) per read differs from the slice decode", step);
     }
 
+    {
+        // a reader positioned inside a larger source must give the same header
+        let lead = 1 + (spec.seq as usize) % 40;
+        let mut shifted = vec![0xEEu8; lead];
+        shifted.extend_from_slice(&bytes);
+        let mut cur = std::io::Cursor::new(&shifted[..]);
+        cur.set_position(lead as u64);
+        let hp = no_panic("decode_message_header", || decode_message_header(&mut cur))?
+            .map_err(|e| Fail::new("header-decode-error-at-offset", format!("reader positioned {} bytes into its source: {:?}", lead, e)))?;
+        ensure!(hp == h, "layout:depends-on-reader-position", "header decoded from a reader positioned {} bytes into its source differs from the slice decode", lead);
+    }
+
     // type mapping
     let t = no_panic("message_type", || h.message_type())?;
     ensure_eq!(t, expected_type(spec.mtype), "type-map", "code {}", spec.mtype);
